@@ -209,7 +209,8 @@ fn lifecycle(st: &mut St, t: &[usize], r: &[usize]) {
   let roll = st.rng.random_range(0..100);
   if on_tx {
     let i = t[st.rng.random_range(0..t.len())];
-    if roll < 35 && st.txs.iter().filter(|x| x.h.is_some()).count() < 3 {
+    let clone_ok = !st.txs[i].closed || st.rng.random_range(0..100) < 6; // (known finding F24t)
+    if roll < 35 && clone_ok && st.txs.iter().filter(|x| x.h.is_some()).count() < 3 {
       let nh = {
         st.next_h += 1;
         st.next_h
@@ -248,7 +249,8 @@ fn lifecycle(st: &mut St, t: &[usize], r: &[usize]) {
     if st.rxs[i].fut.is_some() && roll < 80 {
       return;
     }
-    if roll < 35 && st.rxs.iter().filter(|x| x.h.is_some()).count() < 3 {
+    let clone_ok = !st.rxs[i].closed || st.rng.random_range(0..100) < 6;
+    if roll < 35 && clone_ok && st.rxs.iter().filter(|x| x.h.is_some()).count() < 3 {
       let nh = {
         st.next_h += 1;
         st.next_h
